@@ -755,7 +755,7 @@ func runC38DNS(s *kit.Session, f kit.Failer, c c38DNSCase) {
 		if judgeDecision("guardLLMURL", 0, err) {
 			return
 		}
-		classes = append(classes, "guard:"+outcome(err))
+		classes = append(classes, "guard:"+strings.Replace(outcome(err), "connected", "accepted", 1))
 
 	case "redirect-check":
 		req, perr := http.NewRequest("GET", u, nil)
@@ -768,7 +768,7 @@ func runC38DNS(s *kit.Session, f kit.Failer, c c38DNSCase) {
 		if judgeDecision("CheckRedirect", 0, err) {
 			return
 		}
-		classes = append(classes, "guard:"+outcome(err))
+		classes = append(classes, "guard:"+strings.Replace(outcome(err), "connected", "accepted", 1))
 
 	case "dial":
 		ctx, cancel := context.WithTimeout(context.Background(), dnsDialDeadline)
@@ -808,7 +808,7 @@ func runC38DNS(s *kit.Session, f kit.Failer, c c38DNSCase) {
 		if judgeDecision("guardLLMURL", 0, gerr) {
 			return
 		}
-		classes = append(classes, "guard:"+outcome(gerr))
+		classes = append(classes, "guard:"+strings.Replace(outcome(gerr), "connected", "accepted", 1))
 		if gerr == nil {
 			bl, hb, err := doClient(u)
 			if judgeClient(u, bl, hb, err) {
